@@ -1682,7 +1682,10 @@ decode_huffman_code_block_stateless_base(struct inflate_state *state, uint8_t *s
                                         return ISAL_END_INPUT;
                                 }
 
-                                if (state->next_out - look_back_dist < start_out)
+                                /* Literals of this symbol group that are pending in
+                                 * write_overflow_lits (output full) precede the match. */
+                                if ((int64_t) look_back_dist >
+                                    (state->next_out - start_out) + state->write_overflow_len)
                                         return ISAL_INVALID_LOOKBACK;
 
                                 if (state->avail_out < repeat_length) {
